@@ -230,11 +230,12 @@ class ASEEngine(EngineBase):
             temperature_K=self.temperature,
             rng=getattr(self, "rgen", None),
         )
-        kin_new = atoms.get_kinetic_energy()
         if vel_settings.get("zero_momentum", False):
             # TODO: should we preserve temperature or not?
             # The other engines do not bother to preserve the temperature
             Stationary(atoms, preserve_temperature=False)
+        # the kinetic energy of the velocities that are actually written
+        kin_new = atoms.get_kinetic_energy()
 
         conf_out = os.path.join(self.exe_dir, "genvel.traj")
         atoms.write(conf_out)
